@@ -5,6 +5,10 @@ props = [json.loads(l)['id'] for l in open('/verif/properties.jsonl')]
 TRUST = ("Trusted: go/packages+go/ssa fidelity and our SSA->SMT translation (subset stated in DESIGN 2.1/2.2), 64-bit int, "
          "soundness of z3 4.8.12 / z3 5.1.0 / cvc5 1.0.3, stdlib models of DESIGN 2.2, every contract marked assumed (listed in the evidence file). ")
 claimed = {
+ 'C09': dict(
+   text="Deductive proof of the codec slice, for all inputs: zig-zag encode/decode are mutually inverse on all int32/uint32; bit interleaving and de-interleaving through the two literal 256-entry lookup tables (read from the source and encoded as mux trees) are mutually inverse on all uint32 pairs / uint64 codes; the 2nd-order derivative encoder and decoder started in equal states return the original value and end in equal states (lock step; loops unrolled completely with unwinding assertions); face-run packing 6*count+face unpacks to (face,count); siTitoPiQi stays below 2^level. The byte-level framing of Encode/Decode (stream model) and the float cell-centre identity are NOT decided; no value-level round trip is claimed.",
+   note=TRUST+"Unverified remainder: byte-stream round trips of Point/Cap/Rect/CellID/CellUnion/Polyline/Loop/Polygon, format selection in Polygon.encode, xyzToFaceSiTi centre detection (float).",
+   design="3 C09"),
  'C11': dict(
    text="Deductive proof, for all 64-bit cell ids and all union lengths, of the membership core of the cell-union algebra on sorted, pairwise-disjoint unions: areSiblings is exact (sound and complete against level/immediate-parent), lowerBound is the partition point, ContainsCellID / IntersectsCellID are sound and complete against 'some member contains / intersects the id' (binary-search post-condition plus the range lemmas of C01), Contains/Intersects of unions against the per-cell tests, IsValid, LeafCellsCovered does not overflow, CellUnionFromRange yields valid cells starting at begin and ending at end, contiguous (thorough tier), no index panics, termination. Normalize's covering-equivalence, intersection/difference set equality, CellIndex and s2intersect are NOT decided (named in evidence).",
    note=TRUST+"Unverified remainder: Normalize (covering equivalence and uniqueness), CellUnionFromIntersection/Difference/Union functional equality, Denormalize leaf-set preservation, CellIndex, s2intersect (maps/closures).",
